@@ -60,7 +60,16 @@ THEOREMS = [
     "HedVerif.C03.convert_df_all",
     "HedVerif.C03.convert_df_keyerror",
     "HedVerif.C03.convert_series",
-    "HedVerif.C03.convert_idempotent_counterexample",
+    "HedVerif.C03.legacy_walk_counterexample",
+    # after fix bb9eaaf (a placeholder node is never an intermediate node): general-stop versions
+    "HedVerif.Schema.walkGet_cases",
+    "HedVerif.Schema.walkGet_some",
+    "HedVerif.C03.whole_none_of_stop",
+    "HedVerif.C03.extension_cases_gen",
+    "HedVerif.C03.stop_transfer_walk",
+    "HedVerif.C03.forms_roundtrip_remainder_gen",
+    "HedVerif.C03.short_long_fixpoint_gen",
+    "HedVerif.C03.get_none_of_interior_sharp",
     "HedVerif.C03.exBulkOK",
     "HedVerif.C03.foldLower_sharp",
 ]
@@ -136,6 +145,11 @@ FORMS = (("short", "short_tag"), ("long", "long_tag"))
 SIG_INTERIOR = "C03-placeholder-followed-by-text"
 
 
+def sig_of(text):
+    """a return of the fixed defect bb9eaaf is reported under its signature"""
+    return SIG_INTERIOR if "/#/" in text else None
+
+
 def canonical(ns, long, rem):
     """(short, long) text of a spelling of node `long` with remainder `rem`, from OUR reading of the XML"""
     return ns + long.split("/")[-1] + rem, ns + long + rem
@@ -207,9 +221,14 @@ def gen_cells(rng, good, messy, n):
              ("   ", None), ("()", [("g", [])])]
     changed = [g for g in good if g["short"] != g["text"] or g["long"] != g["text"]]
     slashless = [g for g in changed if "/" not in g["text"]]
+    placeholder = [g for g in good if "/#/" in g["text"]]
     while len(cells) < n:
         k = rng.random()
-        if k < 0.08 and slashless:
+        if k < 0.04 and placeholder:
+            # a placeholder followed by more text (`Label/#/#/x`): carried over verbatim, stable under re-conversion
+            items = [("t", rng.choice(placeholder))] + ([("g", [("t", rng.choice(good))])] if rng.random() < 0.4 else [])
+            cells.append((write_items(rng, items), items))
+        elif k < 0.08 and slashless:
             # cells without any '/', single or several tags
             items = [("t", rng.choice(slashless)) for _ in range(rng.randint(1, 3))]
             cells.append((write_items(rng, items), items))
@@ -255,10 +274,8 @@ def run_bulk(ctx, name, ns, schema, cases, known_shorts, n_cells):
     good, messy = build_pool(cases, ns, known_shorts)
     cells = gen_cells(rng, good, messy, n_cells)
     texts = [c[0] for c in cells]
-    # placeholder probes: `Label/#/#/x` (outside the side condition of the fixpoint theorems)
-    vals = [g for g in good if g["kind"] == "value" and g["text"].endswith("/#")]
-    probes = [rng.choice(vals)["text"] + tail for tail in ("/#/x", "/x", "/#") for _ in range(2)] if vals else []
-    all_texts = texts + probes
+    probes = []
+    all_texts = texts
     nfr = min(12, len(texts))
     fr_names = ["onset", "HED", "note", "HED2"]
     fr_cols = [[str(i) for i in range(nfr)], texts[:nfr], texts[:nfr][::-1], (texts[nfr:2 * nfr] + [""] * nfr)[:nfr]]
@@ -282,22 +299,18 @@ def check_bulk(ctx, name, ns, schema, cells, probes, fr_names, fr_cols, answers)
     all_texts = texts + probes
     base = {"schema": name, "ns": ns}
     model = {"short_tag": [], "long_tag": []}
-    interior = []
     k = 0
     for t in all_texts:
-        flag = False
         for _, f in FORMS:
             model[f].append(answers[k]["out"])
-            flag = flag or answers[k]["interiorSharp"]
             k += 1
-        interior.append(flag)
     ans_df = answers[k:k + 3]
 
     def bad(clause, route, form, i, got, want=None, signature=None):
         case = dict(base, bulk=route, form=form, text=all_texts[i])
         if want is not None:
             case["expect"] = want
-        ctx.violation(clause, case, {"got": got, "expected": want}, signature=signature)
+        ctx.violation(clause, case, {"got": got, "expected": want}, signature=signature or sig_of(all_texts[i]))
 
     # (i) Series, in place
     out = {}
@@ -365,26 +378,12 @@ def check_bulk(ctx, name, ns, schema, cells, probes, fr_names, fr_cols, answers)
             ("short(long(cell)) != short(cell)", short_of_long, out["short_tag"], "short_tag"),
             ("short(short(cell)) != short(cell)", short_twice, out["short_tag"], "short_tag"),
             ("long(long(cell)) != long(cell)", long_twice, out["long_tag"], "long_tag"))
-    known_interior = any(f.get("signature") == SIG_INTERIOR and f.get("status") == "finding" for f in ctx.known)
     for i, t in enumerate(all_texts):
         for clause, got, want, f in laws:
             if got[i] != want[i]:
-                if interior[i]:
-                    # outside the side condition of the theorems: `Label/#/#/x` -> `Label/#/x` -> `Label/x`
-                    ctx.count("bulk:placeholder-followed-by-text:law-fails")
-                    if known_interior:
-                        bad(clause, "laws", f, i, got[i], want[i], signature=SIG_INTERIOR)
-                    else:
-                        note = ("convert_to_form is not idempotent on a tag with a placeholder followed by more text "
-                                f"(e.g. {t!r}: short = {out['short_tag'][i]!r}, short again = {short_twice[i]!r}); "
-                                f"reported as finding candidate {SIG_INTERIOR}, outside the side condition "
-                                "`noInteriorSharp` of convert_idempotent")
-                        if not any(SIG_INTERIOR in n for n in ctx.notes):
-                            ctx.notes.append(note)
-                else:
-                    bad(clause, "laws", f, i, got[i], want[i])
+                bad(clause, "laws", f, i, got[i], want[i])
     ctx.count("bulk:laws", 4 * len(all_texts))
-    ctx.count("bulk:placeholder-probes", len(probes))
+    ctx.count("bulk:cells-with-placeholder-followed-by-text", sum(1 for t in texts if "/#/" in t))
 
     # (ii) DataFrame with a column subset, a non-default index; untouched columns stay identical
     nfr = len(fr_cols[0])
@@ -423,7 +422,8 @@ def check_bulk(ctx, name, ns, schema, cells, probes, fr_names, fr_cols, answers)
                     want = render(cells[i][1], short)
                     if got[j] != want:
                         ctx.violation(f"convert_to_form({f}) on a DataFrame column: tag not in canonical form",
-                                      dict(base, bulk="frame", form=f, text=t, column=n, expect=want), {"got": got[j], "expected": want})
+                                      dict(base, bulk="frame", form=f, text=t, column=n, expect=want), {"got": got[j], "expected": want},
+                                      signature=sig_of(t))
             ctx.count("bulk:route:frame", nfr * len(selected))
         # a column that does not exist: KeyError in model and implementation
         df = pd.DataFrame({n: list(c) for n, c in zip(fr_names, fr_cols)}, dtype=object)
@@ -482,7 +482,8 @@ def run_schema(ctx, name, full, ns=""):
                 cases.append((ns + sp, long, form, "", "plain"))
             sp = ctx.rng.choice(case_variants(ctx.rng, form))
             if has_val:
-                for rem in ("/3 ms", "/Some Value_x", "/#", "/doi:10.1000/182", "/12:30", "/a/b:c"):
+                # the last three: a placeholder followed by more text (fixed defect C03-placeholder-followed-by-text)
+                for rem in ("/3 ms", "/Some Value_x", "/#", "/doi:10.1000/182", "/12:30", "/a/b:c", "/#/x", "/#/#/x", "/#/#"):
                     cases.append((ns + sp + rem, long, form, rem, "value"))
             else:
                 ext = "/Xyzzy" + str(ctx.rng.randint(0, 9))
@@ -554,7 +555,7 @@ def run_schema(ctx, name, full, ns=""):
                 continue
             cl = oracle(HedTag, schema, text, long, form, rem, ns, r, (long + "/#") in longset)
             if cl:
-                ctx.violation(cl, {"schema": name, "ns": ns, "text": text, "node": long}, r)
+                ctx.violation(cl, {"schema": name, "ns": ns, "text": text, "node": long}, r, signature=sig_of(text))
         elif kind == "badparent":
             if r.get("err") != "INVALID_PARENT_NODE" and "err" in r:
                 pass
@@ -593,7 +594,6 @@ def replay_bulk(ctx, case):
     a = ctx.model.batch([{"op": "c03.schema", "name": name + ns, "ns": ns, "tags": [t["long"] for t in vocab["tags"]]}] +
                         [{"op": "c03.convert", "schema": name + ns, "form": f, "text": text} for _, f in FORMS])
     model = {f: a[1 + i]["out"] for i, (_, f) in enumerate(FORMS)}
-    interior = any(x.get("interiorSharp") for x in a[1:])
     hs = HedString(text, schema)
     routes = {"hedstring": {"short_tag": hs.get_as_short(), "long_tag": hs.get_as_long()}, "series": {}, "frame": {}}
     for _, f in FORMS:
@@ -613,7 +613,8 @@ def replay_bulk(ctx, case):
     f = case.get("form", "short_tag")
     route = case.get("bulk") if case.get("bulk") in routes else "series"
     if want is not None and case.get("bulk") != "laws" and routes[route][f] != want:
-        ctx.violation(f"convert_to_form({f}): tag not in canonical form", case, {"got": routes[route][f], "expected": want})
+        ctx.violation(f"convert_to_form({f}): tag not in canonical form", case, {"got": routes[route][f], "expected": want},
+                      signature=sig_of(text))
     s_short, s_long = routes["series"]["short_tag"], routes["series"]["long_tag"]
     for clause, got, exp in (("long(short(cell)) != long(cell)", impl_series([s_short], schema, "long_tag")[1][0], s_long),
                              ("short(long(cell)) != short(cell)", impl_series([s_long], schema, "short_tag")[1][0], s_short),
@@ -621,7 +622,7 @@ def replay_bulk(ctx, case):
                              ("long(long(cell)) != long(cell)", impl_series([s_long], schema, "long_tag")[1][0], s_long)):
         if got != exp:
             print("law fails:", clause, json.dumps(got), "vs", json.dumps(exp))
-            ctx.violation(clause, case, {"got": got, "expected": exp}, signature=SIG_INTERIOR if interior else None)
+            ctx.violation(clause, case, {"got": got, "expected": exp}, signature=sig_of(text))
 
 
 def replay(ctx, rec):
